@@ -203,6 +203,7 @@ pub struct Run {
     pub any_random: AtomicBool,
     pub inconclusive: AtomicBool,
     pub shrink_iters: AtomicU64,
+    pub fuzz_violations: AtomicU64,
 }
 
 pub type CaseFn<'a> = dyn Fn(&mut Choices<'_>, &mut Stats) -> CaseResult + Sync + 'a;
@@ -261,6 +262,7 @@ impl Run {
             any_random: AtomicBool::new(false),
             inconclusive: AtomicBool::new(false),
             shrink_iters: AtomicU64::new(0),
+            fuzz_violations: AtomicU64::new(0),
         }
     }
 
@@ -439,13 +441,18 @@ impl Run {
             if let Some(k) = self.known.iter().find(|k| k.property == self.prop && k.sig == v.fail.sig) {
                 seen_known.entry(k.sig.clone()).or_insert_with(|| k.what.clone());
             } else {
-                real.entry(v.fail.sig.clone()).or_insert(v);
+                match real.get(&v.fail.sig) {
+                    Some(old) if old.choices.len() <= v.choices.len() => {}
+                    _ => {
+                        real.insert(v.fail.sig.clone(), v);
+                    }
+                }
             }
         }
         for (sig, what) in &seen_known {
             println!("KNOWN-FINDING: property={} sig={} {}", self.prop, sig, what);
         }
-        let mut nviol = 0;
+        let mut nviol = self.fuzz_violations.load(Ordering::Relaxed) as i64;
         if !real.is_empty() {
             let _ = std::fs::create_dir_all(root.join("replays"));
         }
@@ -552,6 +559,10 @@ pub fn replay_file(path: &str, subs_of: &dyn Fn(&str) -> Option<Vec<Sub>>) -> i3
         eprintln!("cannot parse {path}");
         return 2;
     };
+    if !v.is_object() || v.get("choices").is_none() {
+        eprintln!("{path} is not a replay file");
+        return 2;
+    }
     let prop = v["property"].as_str().unwrap_or("").to_string();
     let sub = v["sub"].as_str().unwrap_or("").to_string();
     let exact = v["exact"].as_bool().unwrap_or(false);
@@ -647,4 +658,111 @@ pub fn spawn_child(args: &[&str], envs: &[(&str, &str)], stdin: Option<&[u8]>) -
     }
     let out = child.wait_with_output().expect("wait child");
     (out.status.code(), out.status.signal(), out.stdout, out.stderr)
+}
+
+/// A coverage-guided libFuzzer campaign (thorough tiers): builds the target in
+/// /verif/fuzz with `cargo +nightly fuzz build`, runs `jobs` independent
+/// fuzzer processes with `runs` executions each (fixed work, seeds derived
+/// from the run seed), and turns every crash artifact into a violation whose
+/// replay file is the artifact itself.
+pub fn fuzz_campaign(run: &Run, target: &str, jobs: usize, runs: u64, max_len: usize, dict: Option<&str>) {
+    use std::process::{Command, Stdio};
+    let root = verif_root();
+    let fuzz_dir = root.join("fuzz");
+    let build = Command::new("cargo")
+        .args(["+nightly", "fuzz", "build", "--fuzz-dir"])
+        .arg(&fuzz_dir)
+        .arg(target)
+        .current_dir(root.join("harness"))
+        .env("CARGO_NET_OFFLINE", "true")
+        .stdout(Stdio::null())
+        .stderr(Stdio::piped())
+        .output();
+    let ok = matches!(&build, Ok(o) if o.status.success());
+    if !ok {
+        let msg = match build {
+            Ok(o) => String::from_utf8_lossy(&o.stderr).chars().rev().take(600).collect::<String>().chars().rev().collect::<String>(),
+            Err(e) => e.to_string(),
+        };
+        eprintln!("libFuzzer target {target} could not be built; the campaign is skipped: {msg}");
+        run.note(&format!("libfuzzer_{target}"), json!({"status": "build failed - campaign skipped", "detail": msg}));
+        return;
+    }
+    let bin = fuzz_dir.join("target/x86_64-unknown-linux-gnu/release").join(target);
+    let seeds = fuzz_dir.join("corpus").join(target);
+    let art = fuzz_dir.join("artifacts").join(target);
+    let _ = std::fs::create_dir_all(&art);
+    let before: HashSet<String> = std::fs::read_dir(&art).map(|d| d.filter_map(|e| e.ok()).map(|e| e.file_name().to_string_lossy().to_string()).collect()).unwrap_or_default();
+    let mut children = Vec::new();
+    for j in 0..jobs {
+        let work = fuzz_dir.join("corpus-run").join(format!("{target}-{j}"));
+        let _ = std::fs::remove_dir_all(&work);
+        let _ = std::fs::create_dir_all(&work);
+        let mut cmd = Command::new(&bin);
+        cmd.arg(&work).arg(&seeds);
+        cmd.arg(format!("-runs={runs}"))
+            .arg(format!("-max_len={max_len}"))
+            .arg("-len_control=0")
+            .arg(format!("-seed={}", (run.seed.wrapping_mul(1000003).wrapping_add(j as u64) % 0xffff_fffe) + 1))
+            .arg(format!("-artifact_prefix={}/", art.display()))
+            .arg("-print_final_stats=1")
+            .arg("-timeout=60");
+        if let Some(d) = dict {
+            cmd.arg(format!("-dict={}", fuzz_dir.join(d).display()));
+        }
+        cmd.stdout(Stdio::null()).stderr(Stdio::piped());
+        match cmd.spawn() {
+            Ok(c) => children.push((j, c, work)),
+            Err(e) => eprintln!("cannot start fuzzer job {j}: {e}"),
+        }
+    }
+    let mut execs = 0u64;
+    let mut crashed = 0;
+    for (j, c, work) in children {
+        let out = c.wait_with_output();
+        if let Ok(o) = out {
+            let err = String::from_utf8_lossy(&o.stderr);
+            for line in err.lines() {
+                if let Some(n) = line.strip_prefix("stat::number_of_executed_units:") {
+                    execs += n.trim().parse::<u64>().unwrap_or(0);
+                }
+            }
+            if !o.status.success() {
+                crashed += 1;
+                let tail: String = err.lines().rev().take(30).collect::<Vec<_>>().into_iter().rev().collect::<Vec<_>>().join("\n");
+                eprintln!("fuzzer job {j} of {target} stopped abnormally:\n{tail}");
+            }
+        }
+        let _ = std::fs::remove_dir_all(&work);
+    }
+    // new artifacts => violations
+    let mut new_artifacts = Vec::new();
+    if let Ok(d) = std::fs::read_dir(&art) {
+        for e in d.filter_map(|e| e.ok()) {
+            let name = e.file_name().to_string_lossy().to_string();
+            if !before.contains(&name) && (name.starts_with("crash-") || name.starts_with("oom-") || name.starts_with("timeout-")) {
+                new_artifacts.push(e.path());
+            }
+        }
+    }
+    new_artifacts.sort();
+    let mut st = Stats::default();
+    st.evals_n(execs);
+    st.class_n(&format!("libfuzzer-{target}-executions"), execs);
+    run.add_stats(&format!("libfuzzer-{target}"), st);
+    run.note(
+        &format!("libfuzzer_{target}"),
+        json!({"status": "ran", "jobs": jobs, "runs_per_job": runs, "executions": execs, "jobs_stopped_abnormally": crashed, "new_artifacts": new_artifacts.len()}),
+    );
+    for a in new_artifacts {
+        let name = a.file_name().unwrap().to_string_lossy().to_string();
+        if name.starts_with("timeout-") || name.starts_with("oom-") {
+            // slow / memory-hungry inputs are reported as inconclusive, not as violations
+            eprintln!("libFuzzer {target}: {name} (not counted as a violation)");
+            run.inconclusive.store(true, Ordering::Relaxed);
+            continue;
+        }
+        println!("VIOLATION property={} replay={}", run.prop, a.display());
+        run.fuzz_violations.fetch_add(1, Ordering::Relaxed);
+    }
 }
